@@ -191,6 +191,10 @@ def check_cli_case(ctx, rng, index):
                 rec.hit('cli-output-on-stdout')
             else:
                 if index % 2 == 0:
+                    # the output file exists already and is longer than what will be written (an
+                    # earlier run with more levels): it must hold the output of the last run only
+                    with open(out, 'w') as f:
+                        f.write('stale line of an earlier, longer output\n' * 400)
                     data.cli(argv + ['-o', out])  # the same output file name used again
                     import gc
                     gc.collect()
